@@ -285,7 +285,7 @@ def check_input(case, rec):
 # ---------------------------------------------------------------------------
 # histories
 
-OPS = ["gen_seed", "gen_same", "gen_nan", "set_pos", "new_values", "new_cond", "model_inplace", "reassign", "mutate_pos", "shift_pos", "gen_other_store", "krige_direct"]
+OPS = ["gen_seed", "gen_same", "gen_nan", "set_pos", "new_values", "new_cond", "model_inplace", "reassign", "mutate_pos", "shift_pos", "gen_other_store", "krige_direct", "mesh_switch"]
 
 
 @st.composite
@@ -406,6 +406,28 @@ def check_history(case, rec):
                         err = float(np.max(errv))
                         rec.discrepancy("formula", float(np.max(errv / tolv)), 1.0)
                         require(bool(np.all(errv <= tolv)), f"{where}: differs from kriging (direct solve) + scaled raw field by {err:.3g} (tol {float(np.max(tolv)):.3g})", dict(otags, kind="formula"))
+                elif k == "mesh_switch":
+                    # the convenience methods on the same coordinate arrays: point list, then the grid spanned by the same
+                    # (equal-length) axes, then the point list again - every result equals the one of a fresh object
+                    if cfg["variant"] == "extdrift":
+                        continue
+                    P = caller_pos if pos_set else cur_pos
+                    axes = [np.array(P[i]) for i in range(dim)]
+                    m2 = build_model(spec)
+                    for mt in ("unstructured", "structured", "unstructured"):
+                        arg = P.copy() if mt == "unstructured" else [a.copy() for a in axes]
+                        f = getattr(cs, mt)(arg, seed=seed)
+                        k2 = mk_krige(m2, cfg, cond_pos.copy(), cond_val.copy())
+                        f2 = getattr(gs.CondSRF(k2, mode_no=mode_no), mt)(arg, seed=seed)
+                        require(np.shape(f) == np.shape(f2), f"{where}: {mt} call returns shape {np.shape(f)}, a fresh object {np.shape(f2)}", dict(otags, kind="stale"))
+                        scale = max(1.0, float(np.nanmax(np.abs(f2)))) + math.sqrt(spec["var"])
+                        err = float(np.nanmax(np.abs(np.asarray(f) - np.asarray(f2))))
+                        require(err <= 1e-8 * scale, f"{where}: {mt} call on the same coordinate arrays differs from a freshly built Krige+CondSRF by {err:.3g}",
+                                dict(otags, kind="stale"))
+                    pos_set = True
+                    cur_pos = P.copy()
+                    caller_pos = cur_pos.copy()
+                    generated += 1
                 elif k == "krige_direct":
                     # the user evaluates the kriging object of the conditioned field directly (it stores its own results)
                     if pos_set:
